@@ -277,7 +277,7 @@ theorem decPayload_of_enc (hr : RecOk S g r)
                 have hrest' : rest = [] := hrest ⟨_, _, _, _, hk⟩
                 subst hrest'
                 have := fill_dec hr.law hne hg hplain
-                simp [this, hss, bind, Except.bind, arraySize, hsum]
+                simp [this, hss, bind, Except.bind, arraySize, hsum, hmax]
             · have hal' : (align != 0) = true := by simp [hal]
               have hapos : 0 < align := Nat.pos_of_ne_zero hal
               simp only [hal', if_true] at he
@@ -293,12 +293,12 @@ theorem decPayload_of_enc (hr : RecOk S g r)
                 simp only [Except.ok.injEq] at hn1
                 subst hn1
                 have := aligned_dec hr.law hne hapos hg he
-                simp [hn2, bind, Except.bind, this]
+                simp [hn2, bind, Except.bind, this, hmax]
               | fill =>
                 have hrest' : rest = [] := hrest ⟨_, _, _, _, hk⟩
                 subst hrest'
                 have := aligned_dec hr.law hne hapos hg he
-                simp [hal', this, hss, bind, Except.bind, hsum]
+                simp [hal', this, hss, bind, Except.bind, hsum, hmax]
         | _ => simp [hv] at he
 
 end
